@@ -148,11 +148,12 @@ class Stats:
         s.infeasible = 0
         s.completed = 0
         s.discharged_quick = 0
+        s.retries = 0
         s.fns = set()
 
     def merge(s, o):
         for k in ('paths', 'blocks', 'decisions', 'solver_calls', 'solver_s', 'obligations', 'discharged', 'panics',
-                  'cut', 'infeasible', 'completed', 'discharged_quick'):
+                  'cut', 'infeasible', 'completed', 'discharged_quick', 'retries'):
             setattr(s, k, getattr(s, k) + getattr(o, k))
         s.fns |= o.fns
 
@@ -184,6 +185,8 @@ class Interp:
         self.max_blocks = 2_000_000
         self.native = None
         self.int_enum_limit = 64
+        self.query_timeout_ms = 30000
+        self._alt_model = None
         self.quick = Quick(self)
         self.reset_path([])
         self.on_violation = None
@@ -195,6 +198,8 @@ class Interp:
         self.trace = []
         self.alts = []
         self.solver = None if self.concrete else z3.Solver()
+        if self.solver is not None:
+            self.solver.set('timeout', self.query_timeout_ms)
         self.model = None
         self.model_valid = False
         self.path_blocks = 0
@@ -230,20 +235,59 @@ class Interp:
         """harness-level assumption (input space); recorded"""
         self.add(c)
 
+    def _model(self):
+        return self._alt_model if self._alt_model is not None else self.solver.model()
+
     def _check(self, *extra):
+        self._alt_model = None
         t0 = time.time()
         r = self.solver.check(*extra)
         self.stats.solver_calls += 1
         self.stats.solver_s += time.time() - t0
         if r == z3.unknown:
-            raise Unsupported('solver returned unknown: ' + self.solver.reason_unknown())
+            r = self._retry_unknown(extra)
+            if r is None:
+                raise Unsupported('solver returned unknown: ' + self.solver.reason_unknown())
         return r == z3.sat
+
+    def _retry_unknown(self, extra):
+        """the default solver gave up (typically nonlinear integer cost arithmetic): retry the same query with other
+        configurations; still unknown -> None (inconclusive, never counted as success)"""
+        import os
+        d = os.environ.get('VERIF_DUMP_UNKNOWN')
+        if d:
+            os.makedirs(d, exist_ok=True)
+            s2 = z3.Solver()
+            s2.add(self.solver.assertions())
+            for e in extra:
+                s2.add(e)
+            with open(os.path.join(d, 'q%d_%d.smt2' % (os.getpid(), self.stats.solver_calls)), 'w') as f:
+                f.write(s2.to_smt2())
+        for mk in (lambda: z3.SolverFor('QF_NIA'),
+                   lambda: z3.Then('simplify', 'propagate-values', 'solve-eqs', 'nla2bv', 'smt').solver()):
+            try:
+                s2 = mk()
+                s2.set('timeout', self.query_timeout_ms * 2)
+                s2.add(self.solver.assertions())
+                for e in extra:
+                    s2.add(e)
+                t0 = time.time()
+                r = s2.check()
+                self.stats.solver_calls += 1
+                self.stats.solver_s += time.time() - t0
+                self.stats.retries += 1
+                if r != z3.unknown:
+                    self._alt_model = s2.model() if r == z3.sat else None
+                    return r
+            except z3.Z3Exception:
+                continue
+        return None
 
     def get_model(self):
         if not self.model_valid:
             if not self._check():
                 raise Infeasible()
-            self.model = self.solver.model()
+            self.model = self._model()
             self.model_valid = True
         return self.model
 
@@ -303,7 +347,7 @@ class Interp:
             # model could not decide: ask the solver for the true side
             d = self._check(c)
             if d:
-                self.model = self.solver.model()
+                self.model = self._model()
             else:
                 self.trace.append(0)
                 self.solver.add(z3.Not(c))
@@ -398,7 +442,7 @@ class Interp:
         if not bad:
             if self._check(z3.Not(cond)):
                 bad = True
-                self.model = self.solver.model()
+                self.model = self._model()
                 self.model_valid = True
         if bad:
             self._violate(clause, msg)
@@ -406,7 +450,7 @@ class Interp:
             self.solver.add(cond)
             if not self._check():
                 raise Infeasible()
-            self.model = self.solver.model()
+            self.model = self._model()
             self.model_valid = True
             return False
         self.stats.discharged += 1
@@ -970,6 +1014,18 @@ class Interp:
                     return float('-inf') if neg else float('inf')
                 return x / y
             return {'Eq': x == y, 'Ne': x != y, 'Lt': x < y, 'Le': x <= y, 'Gt': x > y, 'Ge': x >= y}[op]
+        if self.float_mode != 'fp':
+            # exact mode with one non-finite concrete operand: only comparisons are meaningful
+            for a, b, flip in ((x, y, False), (y, x, True)):
+                if isinstance(a, float) and (a != a or a in (float('inf'), float('-inf'))):
+                    if op in ('Add', 'Sub', 'Mul', 'Div'):
+                        raise Unsupported('exact-f64: arithmetic on a non-finite value')
+                    if a != a:
+                        return op == 'Ne'
+                    big = a > 0
+                    o = op if not flip else {'Lt': 'Gt', 'Le': 'Ge', 'Gt': 'Lt', 'Ge': 'Le', 'Eq': 'Eq', 'Ne': 'Ne'}[op]
+                    # a (infinite) o b (finite)
+                    return {'Lt': not big, 'Le': not big, 'Gt': big, 'Ge': big, 'Eq': False, 'Ne': True}[o]
         X, Y = self.to_f(x), self.to_f(y)
         if isinstance(X, SymFP) or isinstance(Y, SymFP):
             if isinstance(X, SymF) or isinstance(Y, SymF):
@@ -1012,7 +1068,12 @@ class Interp:
                 raise Unsupported('exact-f64: symbolic divisor')
             d = yv.as_long()
             if d == 0:
-                raise Unsupported('exact-f64: division by zero (handle as separate case)')
+                # IEEE: x / 0.0 is +inf for x > 0, -inf for x < 0, NaN for x == 0
+                if self.branch(X.e > 0):
+                    return float('inf')
+                if self.branch(X.e < 0):
+                    return float('-inf')
+                return float('nan')
             if d < 0:
                 return SymF(-X.e, -d)
             return SymF(X.e, d)      # quotient kept exact; only comparisons may consume it (checked there)
